@@ -350,6 +350,13 @@ class Ctx:
         for k, kf in sorted(open_by_key.items()):
             print('KNOWN-FINDING: property=%s %s [key=%s observed=%d]' % (self.id, kf['what'], k, seen_known.get(k, 0)))
         rc = 0
+        # replay files of an earlier run of this check (same seed and tier) say nothing about this run
+        import glob as _glob
+        for old_rp in _glob.glob(os.path.join(VERIF, 'replays', '%s-seed%d-%s-*.json' % (self.id, self.seed, self.tier))):
+            try:
+                os.remove(old_rp)
+            except OSError:
+                pass
         if unlisted:
             os.makedirs(os.path.join(VERIF, 'replays'), exist_ok=True)
             seenk = {}
